@@ -194,6 +194,35 @@ inline RawGram genSeqGrammar(Choices &c, const GramOpts &o) {
   return g;
 }
 
+// Items with a nullable tail: A : B X1 .. Xk where every Xi is empty or one token and B has alternatives of different
+// lengths over the same few letters, optionally behind a nullable prefix.  In a list of such items the same set core
+// (same start situations) comes back with other origins, and several situations reach the end of the rule through
+// different runs of skipped empty symbols.
+inline RawGram genTailGrammar(Choices &c, const GramOpts &o) {
+  RawGram g;
+  int nT = c.range(2, 4);
+  for (int t = 0; t < nT; t++) g.terms.push_back({tname(t), 'a' + t});
+  int hot = c.upto(nT - 1); // the letter most tails and heads share
+  auto term = [&]() { return tname(c.chance(55) ? hot : c.upto(nT - 1)); };
+  auto add = [&](const std::string &l, std::vector<std::string> r) { RawRule ru; ru.lhs = l; ru.rhs = r; g.rules.push_back(ru); };
+  bool prefix = c.chance(50);
+  int k = c.range(2, 3);
+  // S item, A body, B head, U head start, P prefix, tails from 'F'
+  if (prefix) add("S", {"P", "A"}); else add("S", {"A"});
+  { std::vector<std::string> r{"B"}; for (int i = 0; i < k; i++) r.push_back(nname(5 + i)); add("A", r); }
+  if (c.chance(70)) add("B", {"U", term()}); else add("B", {"U"});
+  if (c.chance(20)) add("B", {"U"});
+  int nu = c.range(2, 4);
+  for (int i = 0; i < nu; i++) { if (c.chance(40)) add("U", {term(), term()}); else add("U", {tname(c.upto(nT - 1))}); }
+  if (prefix) { add("P", {tname(c.upto(nT - 1))}); add("P", {}); }
+  for (int i = 0; i < k; i++) {
+    if (c.chance(80)) add(nname(5 + i), {term()});
+    add(nname(5 + i), {});
+  }
+  assignTranslations(c, g, o, c.chance(15));
+  return g;
+}
+
 // Block template for error recovery: nested brackets of 1-3 kinds around atoms or separated lists, with error rules of
 // several shapes inside the brackets and in the lists (several sets with `. error' on the way back from an error, error
 // rules that match a few tokens and then reach `. error' again).
